@@ -174,6 +174,22 @@ func genRespSchema(t *simrt.Tape, o respGenOpts) *hSchema {
 			nf := 1 + t.Intn(4, "r.nested.nf")
 			for j := 0; j < nf; j++ {
 				nfd := &TField{ID: j + 1, Name: g.ident("n"), T: mkType(false), Req: t.Intn(3, "r.nested.req")}
+				if t.Chance(1, 5, "r.nested.deeper") {
+					// one level deeper: a struct inside the nested struct, with annotated members of its own
+					st2 := &TStruct{Name: g.ident("In2")}
+					nf2 := 1 + t.Intn(3, "r.nested2.nf")
+					for k := 0; k < nf2; k++ {
+						n2 := &TField{ID: k + 1, Name: g.ident("m"), T: mkType(false), Req: t.Intn(3, "r.nested2.req")}
+						st2.Fields = append(st2.Fields, n2)
+						if (isScalar(n2.T) || o.Complex) && t.Chance(o.AnnoPct, 100, "r.nested2.anno") {
+							annotate(n2)
+						}
+					}
+					g.s.Sch.Structs = append(g.s.Sch.Structs, st2)
+					nfd.T = &TType{Kind: tSTRUCT, St: st2}
+					st.Fields = append(st.Fields, nfd)
+					continue
+				}
 				st.Fields = append(st.Fields, nfd)
 				if (isScalar(nfd.T) || o.Complex) && t.Chance(o.AnnoPct, 100, "r.nested.anno") {
 					annotate(nfd)
